@@ -209,8 +209,16 @@ impl Runner {
 
     /// `serve`: the child also runs the real serve loops and the HTTP API on <dir>/sock
     pub fn new_opt(profile: Profile, seed: u64, serve: bool) -> R<Runner> {
+        Self::new_opt_env(profile, seed, serve, &[])
+    }
+
+    pub fn op_drain_pub(&mut self) -> R<()> {
+        self.op_drain()
+    }
+
+    pub fn new_opt_env(profile: Profile, seed: u64, serve: bool, env: &[(&str, &str)]) -> R<Runner> {
         let dir = work_dir(&format!("e1-{}", profile.name));
-        let now0 = real_now_ms();
+        let now0 = env.iter().find(|(k, _)| *k == "XSMON_CLOCK").and_then(|(_, v)| v.parse::<u64>().ok()).unwrap_or_else(real_now_ms);
         let sess = Session::spawn_with(&dir, serve, &[("XSMON_CLOCK", &now0.to_string())])?;
         let mut r = Runner {
             profile,
